@@ -335,6 +335,44 @@ def lonlat(sc):
     return np.ravel(s.lon.to_value(u.deg)).astype(float), np.ravel(s.lat.to_value(u.deg)).astype(float)
 
 
+def frame_tag(sc):
+    """frame name and the attributes that make two frames of one name different."""
+    f = sc.frame
+    return f"{f.name}|{getattr(f, 'equinox', None)}|{getattr(f, 'obstime', None)}"
+
+
+def sky_objs(reg):
+    """every position of a real sky region as a scalar SkyCoord (in its own frame), in the order of `sky_points`."""
+    from regions import CompoundSkyRegion
+    if isinstance(reg, CompoundSkyRegion):
+        return sky_objs(reg.region1) + sky_objs(reg.region2)
+    if hasattr(reg, 'vertices'):
+        return [reg.vertices[i] for i in range(len(reg.vertices))]
+    if hasattr(reg, 'start'):
+        return [reg.start, reg.end]
+    return [reg.center]
+
+
+def typed(x):
+    """an answer of `contains` by value AND type: scalar boolean (Python bool or numpy bool_), boolean array (with its
+    shape), or anything else (with its type name)."""
+    if isinstance(x, (bool, np.bool_)):
+        return {'t': 'bool', 'shape': None, 'v': [bool(x)]}
+    if isinstance(x, np.ndarray) and x.dtype == np.bool_:
+        return {'t': 'array', 'shape': list(x.shape), 'v': [bool(v) for v in np.ravel(x)]}
+    return {'t': f'{type(x).__module__}.{type(x).__name__}' + (f'[{x.dtype}]' if isinstance(x, np.ndarray) else ''),
+            'shape': list(np.shape(x)), 'v': repr(x)}
+
+
+def spread(t, n):
+    """the n per-position answers of a typed answer (a scalar is broadcast); None if it is not boolean."""
+    if t['t'] == 'bool':
+        return t['v'] * n
+    if t['t'] == 'array' and len(t['v']) == n:
+        return t['v']
+    return None
+
+
 def canon_sky(reg):
     import astropy.units as u
     cls = type(reg).__name__
@@ -346,16 +384,16 @@ def canon_sky(reg):
     if kind == 'polygon':
         lo, la = lonlat(reg.vertices)
         out['v'] = [[F(x), F(y)] for x, y in zip(lo, la)]
-        out['frame'] = reg.vertices.frame.name
+        out['frame'] = frame_tag(reg.vertices)
     elif kind == 'line':
         for key, sc in (('a', reg.start), ('b', reg.end)):
             lo, la = lonlat(sc)
             out[key] = [F(lo[0]), F(la[0])]
-        out['frame'] = reg.start.frame.name
+        out['frame'] = frame_tag(reg.start)
     else:
         lo, la = lonlat(reg.center)
         out['c'] = [F(lo[0]), F(la[0])]
-        out['frame'] = reg.center.frame.name
+        out['frame'] = frame_tag(reg.center)
     for k in SIZE_KEYS.get(kind, []):
         out[k] = F(getattr(reg, SIZE_ATTR[k]).to_value(u.arcsec))
     if hasattr(reg, 'angle'):
@@ -434,17 +472,51 @@ def _q(rng, arcsec):
     return [float((arcsec * u.arcsec).to_value(unit)), unit]
 
 
-def gen_sky_leaf(rng, wd, wcs, kind=None):
+# the celestial frame of a sky region's coordinates is drawn INDEPENDENTLY of the WCS frame; `None` = the WCS's own frame.
+REGION_FRAME_NAMES = ['icrs', 'fk5', 'fk4', 'galactic', 'barycentricmeanecliptic']
+NONDEFAULT_ATTRS = {'fk5': [{'equinox': 'J1975'}, {'equinox': 'J2015.5'}],
+                    'fk4': [{'equinox': 'B1975'}, {'equinox': 'B1950', 'obstime': 'B1975'}, {'equinox': 'B1900', 'obstime': 'J1991.25'}],
+                    'barycentricmeanecliptic': [{'equinox': 'J1975'}]}
+
+
+def gen_region_frame(rng):
+    if rng.random() < 0.4:
+        return None
+    spec = {'name': rng.choice(REGION_FRAME_NAMES)}
+    if spec['name'] in NONDEFAULT_ATTRS and rng.random() < 0.4:
+        spec.update(rng.choice(NONDEFAULT_ATTRS[spec['name']]))
+    return spec
+
+
+def make_frame(spec, wcs_frame):
+    """astropy frame instance of a frame description (`None` = the frame of the WCS)."""
+    if spec is None:
+        return wcs_frame
+    from astropy.coordinates import frame_transform_graph
+    cls = frame_transform_graph.lookup_name(spec['name'])
+    return cls(**{k: v for k, v in spec.items() if k != 'name'})
+
+
+def is_foreign(spec, wd):
+    return spec is not None and not (spec == {'name': wd['frame']})
+
+
+def gen_sky_leaf(rng, wd, wcs, kind=None, frame_spec='draw'):
     """a sky region description near the field: positions as (lon, lat) degrees in the WCS's frame,
     sizes as [value, unit], angle as [value, unit]."""
     pd = gen_pix_leaf(rng, wd, kind=kind or rng.choice([k for k in PIX_KINDS if k != 'regular_polygon']))
     asec = wd['scale'] * 3600.0 * rng.uniform(0.8, 1.25)
 
+    from astropy.wcs.utils import wcs_to_celestial_frame
+    spec = gen_region_frame(rng) if frame_spec == 'draw' else frame_spec
+    fr = make_frame(spec, wcs_to_celestial_frame(wcs))
+
     def sky(p):
-        sc = wcs.pixel_to_world(p[0], p[1])
+        # the position is chosen in the image and expressed in the region's own frame by astropy (independent of regions)
+        sc = wcs.pixel_to_world(p[0], p[1]).transform_to(fr)
         lo, la = lonlat(sc)
         return [float(lo[0]), float(la[0])]
-    d = {'kind': pd['kind'], 'meta': pd['meta'], 'visual': pd['visual']}
+    d = {'kind': pd['kind'], 'meta': pd['meta'], 'visual': pd['visual'], 'frame': spec}
     for key in ('c', 'a', 'b'):
         if key in pd:
             d[key] = sky(pd[key])
@@ -470,6 +542,37 @@ def gen_sky_compound(rng, wd, wcs, depth):
     return d
 
 
+EMPTY_SKY_KINDS = ['point', 'line', 'text']
+
+
+def gen_sky_empty_compound(rng, wd, wcs, depth):
+    """compounds of the classes that contain nothing (point / line / text), every include value at both levels."""
+    if depth == 0:
+        d = gen_sky_leaf(rng, wd, wcs, kind=rng.choice(EMPTY_SKY_KINDS))
+        d['meta'] = gen_meta(rng, p_empty=0.0)
+        return d
+    a = gen_sky_empty_compound(rng, wd, wcs, rng.randint(0, depth - 1))
+    b = gen_sky_empty_compound(rng, wd, wcs, rng.randint(0, depth - 1))
+    return {'kind': 'compound', 'op': rng.choice(['and', 'or', 'xor']), 'a': a, 'b': b,
+            'meta_arg': None if rng.random() < 0.15 else gen_meta(rng, p_empty=0.0),
+            'visual_arg': None if rng.random() < 0.5 else gen_visual(rng, p_empty=0.6)}
+
+
+def gen_pix_empty_compound(rng, wd, depth):
+    if depth == 0:
+        d = gen_pix_leaf(rng, wd, kind=rng.choice(G.EMPTY_KINDS))
+        d['meta'] = gen_meta(rng, p_empty=0.0)
+        d['include'] = d['meta']['include']
+        return d
+    a = gen_pix_empty_compound(rng, wd, rng.randint(0, depth - 1))
+    b = gen_pix_empty_compound(rng, wd, rng.randint(0, depth - 1))
+    d = {'kind': 'compound', 'op': rng.choice(['and', 'or', 'xor']), 'a': a, 'b': b,
+         'meta_arg': None if rng.random() < 0.15 else gen_meta(rng, p_empty=0.0),
+         'visual_arg': None if rng.random() < 0.5 else gen_visual(rng, p_empty=0.6)}
+    d['include'] = eff_meta(d)['include']
+    return d
+
+
 def build_sky(d, frame):
     import astropy.units as u
     from astropy.coordinates import Angle, SkyCoord
@@ -481,6 +584,7 @@ def build_sky(d, frame):
         return CompoundSkyRegion(build_sky(d['a'], frame), build_sky(d['b'], frame), OPS[d['op']],
                                  meta=None if d['meta_arg'] is None else make_meta(d['meta_arg']),
                                  visual=None if d['visual_arg'] is None else make_visual(d['visual_arg']))
+    frame = make_frame(d.get('frame'), frame)
     P = lambda p: SkyCoord(p[0] * u.deg, p[1] * u.deg, frame=frame)
     Q = lambda q: Angle(q[0], q[1])
     m, v = make_meta(d['meta']), make_visual(d['visual'])
@@ -764,6 +868,48 @@ def run_history(h, build, d, wcs, wd, convert, contains=None):
 
 # ------------------------------------------------------------------ the real computation (+ the tables for the model)
 
+def typed_answers(sky_reg, pix_reg, skypts, pp, wcs):
+    """`contains` of a sky region and of its pixel image for an ARRAY of positions and for ONE scalar position, by value and type."""
+    from regions import PixCoord
+    out = {'sky_arr': typed(sky_reg.contains(skypts, wcs)), 'pix_arr': typed(pix_reg.contains(pp))}
+    one = skypts[0]
+    out['sky_sc'] = typed(sky_reg.contains(one, wcs))
+    out['pix_sc'] = typed(pix_reg.contains(PixCoord.from_sky(one, wcs)))
+    out['n'] = len(skypts)
+    return out
+
+
+def _north_angle(sc, wcs):
+    """pixel angle of the local north of the position's OWN frame, from astropy offsets only (never the regions helper)."""
+    import astropy.units as u
+    x0, y0 = (float(v) for v in wcs.world_to_pixel(sc))
+    xn, yn = (float(v) for v in wcs.world_to_pixel(sc.directional_offset_by(0 * u.deg, 1 * u.arcsec)))
+    return math.atan2(yn - y0, xn - x0)
+
+
+def frame_facts(d, fresh, back, wcs, wd, path='root'):
+    """sky -> pixel -> sky compared FRAME-INDEPENDENTLY, per simple component: the largest angular separation (arcsec) between
+    an original position and the returned one (astropy transforms between the frames), and the deviation of the returned
+    angle from `angle + north(original frame) - north(returned frame)` (a sky angle is counted from the local longitude
+    axis of the frame its centre is given in)."""
+    import astropy.units as u
+    if d['kind'] == 'compound':
+        return (frame_facts(d['a'], fresh.region1, back.region1, wcs, wd, path + '.a')
+                + frame_facts(d['b'], fresh.region2, back.region2, wcs, wd, path + '.b'))
+    fact = {'path': path, 'foreign': is_foreign(d.get('frame'), wd), 'sep': None, 'dangle': None, 'n': [0, 0]}
+    if type(fresh).__name__ != type(back).__name__:
+        return [fact]
+    pa, pb = sky_objs(fresh), sky_objs(back)
+    fact['n'] = [len(pa), len(pb)]
+    if len(pa) == len(pb):
+        fact['sep'] = max(float(a.separation(b).to_value(u.arcsec)) for a, b in zip(pa, pb))
+    if hasattr(fresh, 'angle') and hasattr(back, 'angle'):
+        exp = float(fresh.angle.to_value(u.rad)) + _north_angle(fresh.center, wcs) - _north_angle(back.center, wcs)
+        dlt = float(back.angle.to_value(u.rad)) - exp
+        fact['dangle'] = math.atan2(math.sin(dlt), math.cos(dlt))
+    return [fact]
+
+
 def compute(case):
     """-> {'real': canonical real results, 'req': request for the Lean driver}"""
     from regions import PixCoord
@@ -789,9 +935,10 @@ def compute(case):
         ptsback = PixCoord.from_sky(skypts, wcs)
         if not _finite(sky_points(sky), pix_points(back), lonlat(skypts)[0], lonlat(skypts)[1], ptsback.x, ptsback.y):
             return {'real': {'finite': False}, 'req': None}      # outside the domain of the WCS: no statement
-        real = {'start': canon_pix(reg), 'sky': canon_sky(sky), 'back': canon_pix(back),
-                'contains_pix': [bool(v) for v in np.ravel(reg.contains(PixCoord(px, py)))],
-                'contains_sky': [bool(v) for v in np.ravel(sky.contains(skypts, wcs))]}
+        ty = typed_answers(sky, reg, skypts, PixCoord(px, py), wcs)
+        ty['pix_sc'] = typed(reg.contains(PixCoord(float(px[0]), float(py[0]))))     # the original position, not its round trip
+        real = {'start': canon_pix(reg), 'sky': canon_sky(sky), 'back': canon_pix(back), 'typed': ty,
+                'contains_pix': spread(ty['pix_arr'], len(pts)) or [], 'contains_sky': spread(ty['sky_arr'], len(pts)) or []}
         p2s = dict(zip(pix_points(reg), sky_points(sky)))
         s2p = dict(zip(sky_points(sky), pix_points(back)))
         lo, la = lonlat(skypts)
@@ -832,9 +979,9 @@ def compute(case):
     ppx, ppy = np.ravel(pp.x).astype(float), np.ravel(pp.y).astype(float)
     if not _finite(pix_points(pix), sky_points(back), ppx, ppy):
         return {'real': {'finite': False}, 'req': None}
-    real = {'start': canon_sky(sreg), 'pix': canon_pix(pix), 'back': canon_sky(back),
-            'contains_sky': [bool(v) for v in np.ravel(sreg.contains(skypts, wcs))],
-            'contains_pix': [bool(v) for v in np.ravel(pix.contains(pp))],
+    ty = typed_answers(sreg, pix, skypts, pp, wcs)
+    real = {'start': canon_sky(sreg), 'pix': canon_pix(pix), 'back': canon_sky(back), 'typed': ty,
+            'contains_sky': spread(ty['sky_arr'], len(pts)) or [], 'contains_pix': spread(ty['pix_arr'], len(pts)) or [],
             'pix_pts': [[float(x), float(y)] for x, y in zip(ppx, ppy)],
             'pix_desc': desc_from_pixel(pix)}
     s2p = dict(zip(sky_points(sreg), pix_points(pix)))
@@ -844,12 +991,13 @@ def compute(case):
     loc = loc_rows(wcs, [sreg, back])
     real['finite'] = _finite([v for k in p2s.values() for v in k], [v for k in s2p.values() for v in k], [v for r in loc.values() for v in r])
     real['notes'] = notes
-    fc = fresh
+    # independent of the conversion: astropy's own image of every (final) position, each in its own frame
     ip = []
-    for (lo_, la_) in sky_points(fc):
-        x_, y_ = wcs.world_to_pixel(SkyCoord(lo_ * u.deg, la_ * u.deg, frame=frame))
+    for sc in sky_objs(fresh):
+        x_, y_ = wcs.world_to_pixel(sc)
         ip.append([float(x_), float(y_)])
     real['indep'] = ip
+    real['facts'] = frame_facts(d, fresh, back, wcs, wd)
     real['conv'] = [[float(a), float(b)] for a, b in pix_points(pix)]
     req = {'op': 'c06.sky', 'region': model_sky(d, fresh), 'wcs': tables_json(p2s, s2p, loc),
            'pts': [[frac(F(x)), frac(F(y))] for x, y in zip(lo, la)]} if real['finite'] else None
@@ -1020,6 +1168,8 @@ class Check(PropertyCheck):
             for kind in skinds[:4]:
                 cases.append(self._sky_case(rng, wd, wcs, gen_sky_leaf(rng, wd, wcs, kind=kind)))
             cases.append(self._sky_case(rng, wd, wcs, gen_sky_compound(rng, wd, wcs, rng.randint(1, 2))))
+            cases.append(self._sky_case(rng, wd, wcs, gen_sky_empty_compound(rng, wd, wcs, rng.randint(1, 2))))
+            cases.append(self._pix_case(rng, wd, gen_pix_empty_compound(rng, wd, rng.randint(1, 2))))
         del _PENDING[:]
         _PENDING.extend(cases)
         return cases
@@ -1081,6 +1231,8 @@ class Check(PropertyCheck):
             for rk, mk in (('start', 'start'), ('sky', 'sky'), ('back', 'back')):
                 if model_matches(real[rk], parse_model(model[mk])):
                     return False
+            if not self._answers_match_model(case, real, model):
+                return False
             d = G_desc(case['region'])
             band = band_for(case, d)
             for p, rp, rs, mp_, ms in zip(case['pts'], real['contains_pix'], real['contains_sky'], model['contains_pix'], model['contains_sky']):
@@ -1093,6 +1245,8 @@ class Check(PropertyCheck):
         for rk, mk in (('start', 'start'), ('pix', 'pix'), ('back', 'back')):
             if model_matches(real[rk], parse_model(model[mk])):
                 return False
+        if not self._answers_match_model(case, real, model):
+            return False
         band = band_for(case, real['pix_desc'])
         for p, rs, rp, ms, mp_ in zip(real['pix_pts'], real['contains_sky'], real['contains_pix'], model['contains_sky'], model['contains_pix']):
             _, mg = G.spec_contains(real['pix_desc'], F(p[0]), F(p[1]))
@@ -1100,6 +1254,19 @@ class Check(PropertyCheck):
                 continue
             if rs != ms or rp != mp_:
                 return False
+        return True
+
+    @staticmethod
+    def _answers_match_model(case, real, model):
+        """the answers are booleans, one per position (a scalar is broadcast), and the sky side answers an array of positions
+        with ONE scalar exactly when the model says so (point / line / text overrides)."""
+        n = len(case['pts'])
+        if len(real['contains_pix']) != n or len(real['contains_sky']) != n:
+            return False
+        if len(model['contains_pix']) != n or len(model['contains_sky']) != n:
+            return False
+        if n > 1 and (real['typed']['sky_arr']['t'] == 'bool') != bool(model['sky_scalar_for_array']):
+            return False
         return True
 
     # -------------------------------------------------------------- oracle: the property on the real results
@@ -1136,8 +1303,24 @@ class Check(PropertyCheck):
                 break
         f2 = has_nonempty_compound_dict(start)
         lost = []
-        self._compare(start, back, unit, case, bad, lost, 'roundtrip')
+        facts = {f['path']: f for f in real.get('facts', [])}
+        foreign = {pth for pth, f in facts.items() if f['foreign']}
+        self._compare(start, back, unit, case, bad, lost, 'roundtrip', foreign=foreign)
+        # components given in a frame that is not the WCS's: the returned region is expressed in the WCS frame; compare on the sky
+        for pth in sorted(foreign):
+            f = facts[pth]
+            leaf = start
+            for step in pth.split('.')[1:]:
+                leaf = leaf[step]
+            tol = 1e-6 * max(region_size(leaf), scale_as0)
+            if f['n'][0] != f['n'][1]:
+                bad('vertex_count_changed', f'{pth}: {f["n"][0]} -> {f["n"][1]}')
+            elif f['sep'] is not None and not f['sep'] <= tol:
+                bad('position_changed', f'{pth} (frame {leaf.get("frame")} on a {case["wcs"]["frame"]} WCS): a position moved by {f["sep"]!r} arcsec on the sky')
+            if f['dangle'] is not None and not abs(f['dangle']) <= 1e-6:
+                bad('angle_changed', f'{pth} (frame {leaf.get("frame")}): returned angle deviates by {f["dangle"]!r} rad from angle + north(own frame) - north(WCS frame)')
         self._compare_oneway(start, mid, bad, lost)
+        self._typed_check(case, real, start, bad)
         # membership
         if case['kind'] == 'pix':
             d = G_desc(case['region'])
@@ -1181,7 +1364,42 @@ class Check(PropertyCheck):
             self._compare_oneway(start['a'], mid['a'], bad, lost, path + '.a')
             self._compare_oneway(start['b'], mid['b'], bad, lost, path + '.b')
 
-    def _compare(self, a, b, unit, case, bad, lost, what, path='root'):
+    @staticmethod
+    def _all_empty(c):
+        if c['kind'] == 'compound':
+            return Check._all_empty(c['a']) and Check._all_empty(c['b'])
+        return c['kind'] in ('point', 'line', 'text')
+
+    def _typed_check(self, case, real, start, bad):
+        """the sky-side answer and the pixel-side answer BY VALUE AND TYPE, for one scalar position and for an array."""
+        ty = real.get('typed')
+        if not ty:
+            return
+        empty = self._all_empty(start)
+        n = ty['n']
+        for which in ('sc', 'arr'):
+            sk, px = ty['sky_' + which], ty['pix_' + which]
+            what = 'one scalar position' if which == 'sc' else f'an array of {n} positions'
+            if px['t'] not in ('bool', 'array') or (which == 'arr' and px['shape'] != [n]) or (which == 'sc' and px['t'] != 'bool'):
+                bad('pixel_contains_type', f'{what}: the pixel region answers {px}')
+                continue
+            if sk['t'] not in ('bool', 'array'):
+                bad('sky_contains_not_boolean', f'{what}: the sky region answers {sk["v"]} of type {sk["t"]}, the pixel region {px["v"]} ({px["t"]})')
+                continue
+            if which == 'sc' and sk['t'] != 'bool':
+                bad('sky_contains_shape_differs', f'{what}: the sky region answers with shape {sk["shape"]}')
+                continue
+            if which == 'arr' and sk['shape'] != px['shape']:
+                if empty and sk['t'] == 'bool' and n > 1 and all(v == sk['v'][0] for v in px['v']):
+                    bad('sky_contains_scalar_for_array', f'{what}: the sky region (only point/line/text components) answers ONE bool '
+                        f'{sk["v"][0]}, its pixel image an array of shape {px["shape"]} (all {sk["v"][0]})', f203_class=True)
+                else:
+                    bad('sky_contains_shape_differs', f'{what}: sky answer shape {sk["shape"]} ({sk["t"]}), pixel answer shape {px["shape"]}')
+                continue
+            if empty and spread(sk, n if which == 'arr' else 1) != spread(px, n if which == 'arr' else 1):
+                bad('sky_contains_differs_from_pixel_image', f'{what}: sky {sk["v"]} vs pixel {px["v"]} (nothing-containing classes: no boundary)')
+
+    def _compare(self, a, b, unit, case, bad, lost, what, path='root', foreign=frozenset()):
         """start vs round-tripped region: class, geometry within 1e-6 relative, meta, visual."""
         if a['kind'] != b['kind'] or (a['cls'] != b['cls'] and not (a['cls'] == 'RegularPolygonPixelRegion' and b['cls'] == 'PolygonPixelRegion')):
             bad('class_changed', f'{path}: {a["cls"]} -> {b["cls"]}')
@@ -1195,8 +1413,16 @@ class Check(PropertyCheck):
         if a['kind'] == 'compound':
             if a['op'] != b['op']:
                 bad('operator_changed', f'{path}: {a["op"]} -> {b["op"]}')
-            self._compare(a['a'], b['a'], unit, case, bad, lost, what, path + '.a')
-            self._compare(a['b'], b['b'], unit, case, bad, lost, what, path + '.b')
+            self._compare(a['a'], b['a'], unit, case, bad, lost, what, path + '.a', foreign)
+            self._compare(a['b'], b['b'], unit, case, bad, lost, what, path + '.b', foreign)
+            return
+        if unit == 'sky' and path in foreign:
+            # expressed in another frame on return: positions / angle are compared on the sky by the caller (frame_facts)
+            for key in SIZE_KEYS.get(a['kind'], []):
+                if not rel_close(a[key], b[key], Fraction(1, 10 ** 6)):
+                    bad('size_changed', f'{path}.{key}: {float(a[key])!r} -> {float(b[key])!r}')
+            if a.get('text') != b.get('text'):
+                bad('text_changed', f'{path}: {a.get("text")!r} -> {b.get("text")!r}')
             return
         if unit == 'sky' and a.get('frame') != b.get('frame'):
             bad('frame_changed', f'{path}: {a.get("frame")} -> {b.get("frame")}')
@@ -1249,6 +1475,8 @@ class Check(PropertyCheck):
         """F2 (fixed in 23f75f4; matters only if the entry is ever re-opened): a compound node whose non-empty dictionaries
         came back EMPTY, or the membership change that is exactly explained by the lost include flag.  With the entry
         `fixed`, a regression is a VIOLATION (corpus/C06/f2_compound_meta.json replays the original witness first)."""
+        if finding.get('id') == 'F203':
+            return violation.get('kind') == 'sky_contains_scalar_for_array' and violation.get('f203_class') is True
         return (finding.get('id') == 'F2' and violation.get('f2_class') is True
                 and violation.get('kind') in ('compound_meta_lost', 'compound_membership_changed'))
 
